@@ -105,8 +105,10 @@ func sanitize(s string) string {
 }
 
 // Inconclusive marks a harness-side problem (not a property violation).
-func Inconclusive(t testing.TB, format string, args ...any) {
-	t.Helper()
+func Inconclusive(t interface {
+	Name() string
+	SkipNow()
+}, format string, args ...any) {
 	fmt.Printf("VERIF-INCONCLUSIVE: %s: %s\n", t.Name(), fmt.Sprintf(format, args...))
 	t.SkipNow()
 }
